@@ -1541,4 +1541,99 @@ theorem handleTrailerS_ok {lim : Limits} {cap used : Nat} {es : Bool} {hl t : Li
   · cases h
   · exact h
 
+-- ------------------------------------------------ HTTP/2 response arm --
+
+/-- what the response fold keeps true: the status is a three-digit `:status`
+    value of the block, every stored field is one of the block's headers -/
+def RespInv (hl : List (Bytes × Bytes)) (s : VS) : Prop :=
+  (∀ st, s.method = some st → st.length = 3 ∧ st.all isDigit = true ∧ ∃ kv ∈ hl, eqNoCase kv.1 sStatus = true ∧ kv.2 = st) ∧
+  (∀ f ∈ s.fields, ∃ kv ∈ hl, f = Field.hdr kv.1 kv.2 ∧ kv.1.head? ≠ some 58)
+
+theorem respStep_inv {lim : Limits} {hl : List (Bytes × Bytes)} {s s' : VS} {kv : Bytes × Bytes} (hm : kv ∈ hl)
+    (hi : RespInv hl s) (h : stepHeaderResp lim s kv = .ok s') : RespInv hl s' := by
+  unfold stepHeaderResp at h
+  simp only at h
+  split at h; · cases h
+  split at h; · cases h
+  split at h
+  · cases h
+  · unfold perHeaderResp at h
+    split at h
+    · next hk =>
+      split at h; · cases h
+      next hv =>
+      obtain ⟨x, hx, hs⟩ := map_ok h
+      obtain ⟨_, _, c, _, _⟩ := storePseudo_ok hx
+      subst c; subst hs
+      simp only [Bool.or_eq_true, bne_iff_ne, ne_eq, Bool.not_eq_true', not_or, Decidable.not_not, Bool.not_eq_false] at hv
+      refine ⟨?_, hi.2⟩
+      intro st hst
+      simp at hst; subst hst
+      exact ⟨hv.1, hv.2, kv, hm, hk, rfl⟩
+    · split at h
+      · cases h
+      · next hk hhead =>
+        obtain ⟨w1, _, w3, _⟩ := writeRegular_ok h
+        refine ⟨by rw [w3]; exact hi.1, ?_⟩
+        intro f hf
+        rcases w1 with w1 | w1
+        · rw [w1] at hf
+          rcases List.mem_append.mp hf with hf | hf
+          · exact hi.2 f hf
+          · simp only [List.mem_cons, List.mem_nil_iff, or_false] at hf
+            exact ⟨kv, hm, hf, by simpa using hhead⟩
+        · rw [w1] at hf; exact hi.2 f hf
+
+theorem respFold_inv {lim : Limits} (all : List (Bytes × Bytes)) (hl : List (Bytes × Bytes)) (hsub : ∀ kv ∈ hl, kv ∈ all) :
+    ∀ {s s' : VS}, RespInv all s → foldHeadersResp lim hl s = .ok s' → RespInv all s' := by
+  induction hl with
+  | nil => intro s s' hi h; simp [foldHeadersResp] at h; subst h; exact hi
+  | cons kv tl ih =>
+    intro s s' hi h
+    simp only [foldHeadersResp] at h
+    cases hs : stepHeaderResp lim s kv with
+    | error r => simp [hs] at h
+    | ok s1 =>
+      simp only [hs] at h
+      exact ih (fun x hx => hsub x (by simp [hx])) (respStep_inv (hsub kv (by simp)) hi hs) h
+
+theorem response_intact (lim : Limits) (es : Bool) (hl : List (Bytes × Bytes)) (r : Resp)
+    (h : validateResponse lim es id hl = .ok r) :
+    (r.status.length = 3 ∧ r.status.all isDigit = true ∧ ∃ kv ∈ hl, eqNoCase kv.1 sStatus = true ∧ kv.2 = r.status) ∧
+    (∀ f ∈ r.fields, (∃ kv ∈ hl, f = Field.hdr kv.1 kv.2 ∧ kv.1.head? ≠ some 58) ∨
+       f = .hdr cContentLength [48] ∨ f = .hdr cTransferEncoding sChunked) := by
+  unfold validateResponse at h
+  cases hf : foldHeadersResp lim hl {} with
+  | error e => simp [hf] at h
+  | ok s =>
+    simp only [hf] at h
+    have hi : RespInv hl s := respFold_inv hl hl (fun _ x => x) ⟨by simp, by simp⟩ hf
+    unfold finishResp at h
+    cases hm : s.method with
+    | none => simp [hm] at h
+    | some st =>
+      simp only [hm, id] at h
+      have hst := hi.1 st hm
+      have old : ∀ f ∈ s.fields, (∃ kv ∈ hl, f = Field.hdr kv.1 kv.2 ∧ kv.1.head? ≠ some 58) ∨
+          f = .hdr cContentLength [48] ∨ f = .hdr cTransferEncoding sChunked := fun f hf' => .inl (hi.2 f hf')
+      have app : ∀ x, ∀ f ∈ s.fields ++ [x], (x = .hdr cContentLength [48] ∨ x = .hdr cTransferEncoding sChunked) →
+          (∃ kv ∈ hl, f = Field.hdr kv.1 kv.2 ∧ kv.1.head? ≠ some 58) ∨
+          f = .hdr cContentLength [48] ∨ f = .hdr cTransferEncoding sChunked := by
+        intro x f hf' hx
+        rcases List.mem_append.mp hf' with hf' | hf'
+        · exact old f hf'
+        · simp only [List.mem_cons, List.mem_nil_iff, or_false] at hf'; subst hf'; exact .inr hx
+      split at h
+      · split at h
+        · split at h
+          · cases h
+          · cases h; exact ⟨hst, old⟩
+        · split at h
+          · cases h; exact ⟨hst, old⟩
+          · cases h; exact ⟨hst, fun f hf' => app _ f hf' (.inl rfl)⟩
+        · cases h; exact ⟨hst, old⟩
+      · split at h
+        · cases h; exact ⟨hst, fun f hf' => app _ f hf' (.inr rfl)⟩
+        · cases h; exact ⟨hst, old⟩
+
 end Sozu.Headers
